@@ -386,7 +386,7 @@ def run(ctx):
                         'a detached Row object is used/destroyed by one thread at a time (hand-over between threads is synchronised by the client)',
                         'MemPool hands out only free buffers (C20/C09) and may overwrite a buffer it holds; the table outlives its detached rows']
     ctx.regen(['gen_datarow.json', 'gen_owner.json', 'gen_uintmath.json', 'gen_poolconst.json', 'gen_rawpool.json',
-               'gen_datarowops.json', 'gen_tableswap.json', 'gen_tablecrew.json'])      # T-gen: DataRow::~DataRow / ptGetRaw / ptExtractRaw, DataTable::pvDeallocateFreeRaws / pvAllocateRaw
+               'gen_datarowops.json', 'gen_tableswap.json', 'gen_tablecrew.json', 'gen_makerow.json'])      # T-gen: DataRow::~DataRow / ptGetRaw / ptExtractRaw, DataTable::pvDeallocateFreeRaws / pvAllocateRaw
     ctx.prove()
     flags = ['-pthread']
     prebuilt = {}
